@@ -41,3 +41,26 @@ def strip_doc(body):
     return [s for s in body if not (isinstance(s, ast.Expr) and isinstance(s.value, ast.Constant) and isinstance(s.value.value, str))]
 
 
+
+
+# ----------------------------------------------------------------------------- twin parameters of a Coq Section
+# Section variables of the same type that could be written for each other in the Python source (self._universal_set /
+# self._null_set, self._union / self._intersection).  The discharge of a Coq Section generalises a definition over the
+# variables it USES only: if a translated function used `null` alone, a source that calls self._universal_set instead
+# would merely rename that parameter, the generated function would keep its type, and a lemma file that applies it
+# positionally (`calculate_livein_gen T null union inter f`) would still prove "generated = model" although the code now
+# starts from the other set.  A definition that mentions one member of a group therefore takes the whole group (a dead
+# `let`), so that the position of every member in the discharged type is fixed by the Section header and not by the
+# Python text: the swap then changes which PARAMETER is used and the lemma against the model fails.
+DOMAIN_TWINS = [("univ", "null"), ("union", "inter")]
+
+
+def pin_twins(term, twins=None):
+    """wrap `term` (Gallina text of a definition body) so that it mentions every member of each group it touches"""
+    import re
+
+    toks = set(re.findall(r"[A-Za-z_][A-Za-z_0-9']*", term))
+    for grp in DOMAIN_TWINS if twins is None else twins:
+        if toks & set(grp):
+            term = f"(let _ := ({', '.join(grp)}) in (* takes the whole group of parameters *)\n{term})"
+    return term
